@@ -302,6 +302,17 @@ impl Observer for Obs {
         }
         self.catch_up(w)?;
         self.compare(w)?;
+        // What is still cached decides which later commits are accepted. Members drop every cached proposal when the epoch
+        // changes (whatever kind of commit changed it); right after a commit the observer's cache must be empty too.
+        if let Some(g) = &self.group {
+            let n = g.get_cached_proposals().len();
+            if n != 0 {
+                return Err(fail(
+                    "observer_keeps_proposals_of_the_previous_epoch",
+                    format!("observer at epoch {} still caches {n} proposal(s) right after the {} that started this epoch", g.group_context().epoch, if _info.external { "external commit" } else { "commit" }),
+                ));
+            }
+        }
         self.window_probe(w)?;
         Ok(())
     }
